@@ -32,15 +32,7 @@ func (cdb *CachedDatabase) SearchWithOptionsAndCache(query string, options Searc
 	}
 
 	// Convert SearchOptions to cache.SearchOptions
-	cacheOptions := cache.SearchOptions{
-		Limit:          options.Limit,
-		ContextBoosts:  options.ContextBoosts,
-		PipelineOnly:   options.PipelineOnly,
-		PipelineBoost:  options.PipelineBoost,
-		UseFuzzy:       options.UseFuzzy,
-		FuzzyThreshold: options.FuzzyThreshold,
-		UseNLP:         options.UseNLP,
-	}
+	cacheOptions := toCacheOptions(options)
 
 	// Try to get from cache first
 	if cachedResults, found := searchCache.Get(query, cacheOptions); found {
@@ -56,6 +48,24 @@ func (cdb *CachedDatabase) SearchWithOptionsAndCache(query string, options Searc
 	}
 
 	return results
+}
+
+// toCacheOptions copies every field of SearchOptions into the cache key options: two
+// requests that differ in any option must never share a cached entry.
+func toCacheOptions(options SearchOptions) cache.SearchOptions {
+	return cache.SearchOptions{
+		Limit:           options.Limit,
+		ContextBoosts:   options.ContextBoosts,
+		PipelineOnly:    options.PipelineOnly,
+		PipelineBoost:   options.PipelineBoost,
+		UseFuzzy:        options.UseFuzzy,
+		FuzzyThreshold:  options.FuzzyThreshold,
+		UseNLP:          options.UseNLP,
+		TopTermsCap:     options.TopTermsCap,
+		AllPlatforms:    options.AllPlatforms,
+		Platforms:       options.Platforms,
+		NoCrossPlatform: options.NoCrossPlatform,
+	}
 }
 
 // InvalidateCache clears all cached results
